@@ -145,21 +145,17 @@ def run(ck):
                  str(x.extra), data={"path": pathsum.show_exit(x)[:1500]})
     ck.floor("C10-T6", "paths from the scan loop to the next read", n6, 2)
 
-    # T5: uses of the response buffer in HIR
-    allowed = {RUN: "arg", ADAPTER + "write": "arg"}
-    n_uses = 0
-    for xnode in hir.walk(body):
-        if xnode.get("k") == "Path" and xnode["res"].get("r") == "Local" and xnode["res"]["id"] == res_id:
-            n_uses += 1
-            p = pm.get(id(xnode))
-            while p is not None and p.get("k") in ("AddrOf", "Unary"):
-                p = pm.get(id(p))
-            cal = hir.base_path(hir.callee(p) or "") if p else None
-            ok = cal is not None and (cal in allowed or cal.endswith("::is_empty") or cal.endswith("::clear"))
-            ck.judge(ok, "C10-T5", "process:res_buf-use#%d:%s" % (n_uses, (cal or "?").split("::")[-1]),
-                     "response buffer used by %s" % cal, "response buffer used by %s (%s)" % (cal, hir.show(p) if p else "?"), hir.loc(xnode))
-    ck.floor("C10-T5", "uses of the response buffer", n_uses, 4)
-
+    # T5: every operation that touches the response buffer, on any path, is one of run / is_empty / write / clear
+    # (the typestate pass above reports any other use); counted here per site as a positive control of the matcher
+    use_sites = set()
+    for x in exits:
+        for e in x.effects:
+            if e[0] == "call" and any(isinstance(a, tuple) and a and a[0] in ("loopvar", "local") and a[1] == res_id for a in e[2]):
+                use_sites.add((e[1].split("::")[-1], e[3]))
+    bad_uses = [u for u in use_sites if u[0] not in ("run", "is_empty", "write", "clear")]
+    ck.judge(not bad_uses, "C10-T5", "process:res_buf-uses", "response buffer touched only by %s" % sorted({u[0] for u in use_sites}),
+             "response buffer is also used by %s" % sorted(bad_uses))
+    ck.floor("C10-T5", "operations on the response buffer", len(use_sites), 4)
 
 def response_typestate(ck, exits, res_id, rid):
     """T4: typestate of the response buffer along every path segment."""
